@@ -2,7 +2,7 @@
 # lead tool: ingest mutation agent output dir (<worktree>/out/<k>) as seeded/<PROP>-m<k>: confirm, copy, run the check, write meta.json
 # usage: seeded_ingest.sh <PROP> <worktree>
 prop="$1"; wt="$2"; pre="${3:-m}"
-for k in 1 2; do
+for k in 1 2 3; do
   src=$wt/out/$k; [ -f $src/patch.diff ] || continue
   sid=$prop-$pre$k; dst=/verif/seeded/$sid; mkdir -p $dst
   cp $src/patch.diff $src/demo.py $src/notes.md $dst/ 2>/dev/null
